@@ -6,7 +6,7 @@ from . import rt
 from .net import Bus, Stack, j1939
 from .canon import canon
 
-CLI, SRV, INTR = 0xF9, 0xD4, 0xE5
+CLI, SRV, INTR, THIRD = 0xF9, 0xD4, 0xE5, 0xC0
 DM14, DM15, DM16 = 0xD900, 0xD800, 0xD700
 
 
@@ -43,6 +43,17 @@ class DmWorld:
             self.srv.set_seed_generator(lambda: self.seed)
         self.srv.set_proceed(self._proceed)
         self.srv.set_notify(self._notify)
+        self.T = None
+        if cfg.get('third'):
+            # a third ECU that serves memory too: the server of the scenario may itself be its client
+            self.T = Stack(bus, 'T')
+            self.tca = self.T.add_ca(THIRD, name_value=0x503)
+            self.tsrv = j1939.MemoryAccess(self.tca)
+            self.tflag = 0
+            self.tcalls = []
+            self.tsrv.set_proceed(lambda *a: (self.tcalls.append(a), True)[1])
+            self.tsrv.set_notify(lambda: setattr(self, 'tflag', self.tflag + 1))
+        self.own_queries = []              # results of queries the serving ECU made itself
         self.flag = 0
         self.proceed_calls = []
         self.notifies = 0
@@ -91,6 +102,15 @@ class DmWorld:
                     data = mem_bytes(address, op.get('nbytes', count), op.get('salt', 0))
                     self.srv.respond(True, list(data), 0xFFFF, 0xFF)
                     self.served.append(('read', cmd, address, ptype, count, bytes(data)))
+                    if op.get('then_query'):
+                        # the serving ECU is itself a client of a third ECU while its own transaction may still be closing
+                        try:
+                            r = self.srv.read(THIRD, 1, 0x5000, op['then_query'], 1, False, True, max_timeout=1)
+                            self.own_queries.append(('ok', list(r)))
+                        except rt.Killed:
+                            raise
+                        except BaseException as e:
+                            self.own_queries.append(('exc', type(e).__name__, str(e)[:60]))
                 else:
                     r = self.srv.respond(True, [], 0xFFFF, 0xFF, max_timeout=op.get('srv_timeout', 3))
                     self.served.append(('write', cmd, address, ptype, count, None if r is None else bytes(r)))
@@ -127,8 +147,25 @@ class DmWorld:
             res['frame1'] = len(self.bus.log)
         self.stop = True
 
+    def third_app(self):
+        w = self.w
+        seen = 0
+        while not self.stop:
+            if not w.wait_until(lambda: self.tflag > seen or self.stop, 1e6) or self.stop:
+                return
+            seen = self.tflag
+            a = self.tcalls[-1]
+            try:
+                self.tsrv.respond(True, mem_bytes(a[1], a[4], 9), 0xFFFF, 0xFF)
+            except rt.Killed:
+                raise
+            except BaseException:
+                pass
+
     def run(self, ops, horizon=None):
         w = self.w
+        if self.T is not None:
+            w.spawn(self.third_app, name='thirdapp')
         w.spawn(self.server_app, name='srvapp')
         w.spawn(self.client_app, (ops,), name='cliapp')
         total = sum(op.get('timeout', 1) + op.get('gap', 1.5) + 3.5 for op in ops) + 1.0
